@@ -54,6 +54,9 @@ def _arabic_one(concrete):
     return A.arabic_trace(concrete)
 
 
+PILOT = 120
+
+
 def arabic_judge(ctx, cfg, traces, label, pending=None):
     consts = {"Classes": set(cfg["Classes"]), "MaxLen": 0, "Level": "model"}
     acc, rej = ctx.validate("ArabicOrder_Trace", traces, constants=consts, shards=SHARDS, label="ArabicOrder_Trace " + label)
@@ -87,7 +90,14 @@ def arabic_part(ctx, pending):
         for v in range(cfg["variety"]):
             rng = random.Random(ctx.seed * 1000 + v)
             concrete += [A.instantiate(t, rng) for t in toks if t]
-        traces = pmap(_arabic_one, concrete, procs=PROCS)
+        # a small pilot batch is executed and judged first: a changed implementation that degrades with every call (state
+        # growing across calls until the workers run out of memory) is then reported by its first rejected executions, before the
+        # bulk of the cases could take the harness down
+        pilot = concrete[:PILOT]
+        ptraces = [A.arabic_trace(c) for c in pilot] if len(pilot) < 32 else pmap(_arabic_one, pilot, procs=2)
+        arabic_judge(ctx, cfg, ptraces, cfg["name"] + " (pilot)", None)
+        traces = ptraces + pmap(_arabic_one, concrete[PILOT:], procs=PROCS)
+        ctx.traces_validated -= len(ptraces)          # the pilot traces are validated again with the whole batch below
         for t in traces:
             ctx.count(1, t["concrete"] if len(set(t["text"])) > 1 and t["r1"] != t["text"] else None)
         ctx.sample({"module": "ArabicOrder", "trace": traces[len(traces) // 2]}, limit=2)
